@@ -93,9 +93,10 @@ def mk_deep(depth):
 def conds(tier):
     q = tier == "quick"
     out = []
-    out.append(core.shape_cond("order", P, [3, 4, 5, 13, 17, 6, 7, 12] if q else list(range(20)),
+    out.append(core.shape_cond("order", P, [3, 4, 5, 13, 17, 6, 7, 12, 21] if q else list(range(22)),
                                fam.OK_MENU, 3 if q else 4, budget=200 if q else 900))
     out.append(core.seq_cond("seq", P, 3, 2, builds=("C", "P")))
+    out.append(core.seq_cond("seq_opts", P, 3, 2, options=("COLLECT_PERF_STATS", "KEEP_DEPENDENCIES")))
     out.append(Cond("dag", core.mk_dag(P), core.DAG_PARAMS, builds=("C", "P"), pin=3, budget=120, family="F-DAG",
                     encodes=core.ENC_SCHED))
     out.append(Cond("tree", core.mk_tree(P, 3, 2, 2), core.tree_params(3, 2, 2), builds=("C", "P"), pin=3, budget=120,
